@@ -478,6 +478,10 @@ static int _GD_UpdateAffixes(DIRFILE *D, int index, char *nsin, size_t nsl,
     F->sxl = sxl;
   }
   F->modified = 1;
+  /* the prefix, suffix and namespace are written in the parent's /INCLUDE line */
+  if (index > 0)
+    D->fragment[F->parent].modified = 1;
+  D->flags &= ~GD_HAVE_VERSION;
 
   GD_RETURN_ERROR(D);
 }
